@@ -1,0 +1,6 @@
+//go:build verif
+
+package jpeg
+
+// VerifMarkerString exposes markerType.String (verification hook).
+func VerifMarkerString(m uint8) string { return markerType(m).String() }
